@@ -32,3 +32,37 @@ def crc16_fast(data: bytes, init: int = 0xFFFF) -> int:
 
 def crc_bytes(data: bytes) -> bytes:
     return crc16_fast(data).to_bytes(2, "big")
+
+
+def solve_two_octets(msg: bytes, pos: int, target: int) -> bytes:
+    """Return ``msg`` with the two octets at ``pos`` chosen so that crc16(msg) == target.  CRC-16 is affine in the message
+    bits, and the map from a 16-bit field at a fixed position to the CRC is a bijection, so the 16 x 16 system over GF(2) is
+    solved by elimination."""
+    base = bytearray(msg)
+    base[pos:pos + 2] = b"\x00\x00"
+    c0 = crc16_fast(bytes(base))
+    cols = []
+    for bit in range(16):
+        m = bytearray(base)
+        v = 1 << bit
+        m[pos] = v >> 8
+        m[pos + 1] = v & 0xFF
+        cols.append(crc16_fast(bytes(m)) ^ c0)
+    want = target ^ c0
+    # gaussian elimination: find x (16 bits) with XOR of cols[i] for set bits i == want
+    rows = [(cols[i], 1 << i) for i in range(16)]
+    x = 0
+    for b in range(15, -1, -1):
+        piv = next((r for r in rows if (r[0] >> b) & 1), None)
+        if piv is None:
+            continue
+        rows = [r if r is piv or not ((r[0] >> b) & 1) else (r[0] ^ piv[0], r[1] ^ piv[1]) for r in rows]
+        rows.remove(piv)
+        if (want >> b) & 1:
+            want ^= piv[0]
+            x ^= piv[1]
+    if want:
+        raise ValueError("no solution")
+    base[pos] = x >> 8
+    base[pos + 1] = x & 0xFF
+    return bytes(base)
